@@ -351,6 +351,7 @@ func runC08(c *core.Ctx) {
 	c08NameProbes(c)
 	c08LateRegistration(c)
 	c08MoreProbes(c)
+	c08RootNamedObjects(c)
 	_ = k
 	c.R.Bound = "49 membership variants x 7 abstract bases x 5 binding modes x 2 graphs; mutation depth per variant: quick 0 (9 corner variants 1), thorough 1 (default variant 2); + all ordered request pairs on one root (10 x 7 documents) and every single implements / union-member extension loaded between requests, for the 9 corner variants (thorough: all 49); + Go type names containing one another x 5 bindings x all member and value orders x {SDL, AddTypes} x {union first, interface first}; + every sequence <= 5 (thorough 7) of 3 requests and 2 RegisterType calls on one root (types that bind by registration only); + typed slices / arrays of struct values behind abstract lists and one Go type bound to two object types x 3 bindings"
 	if !completed {
@@ -756,6 +757,115 @@ func c08MoreProbes(c *core.Ctx) {
 					c.Violation("data-diff", attrs, detail)
 				} else {
 					c.Outcome("part-F-agree")
+				}
+			}
+		}
+	}
+}
+
+// ---- Part G: object types that are CALLED Query, Mutation or Subscription and are members like any other: the query root
+// implements the interface it hands out (Relay's "type Query implements Node"), a domain type is called Subscription while the
+// schema names no subscription root. Every order of the four objects behind an interface list, a union list and single fields,
+// bound by registration and by @go (the Go types are not called like the object types, so binding by name is not in it).
+
+type C08GQuery struct {
+	Name  string
+	Named []interface{}
+	Us    []interface{}
+	Me    interface{}
+	U     interface{}
+}
+type C08GSubscription struct{ Name, Plan string }
+type C08GMutation struct{ Name string }
+type C08GCat struct{ Name string }
+type c08GRoot struct{ Query *C08GQuery }
+
+func c08RootNamedObjects(c *core.Ctx) {
+	const sdl = "schema { query: Query }\ninterface Named { name: String }\n" +
+		"type Query implements Named { name: String named: [Named] us: [U] me: Named u: U }\n" +
+		"type Subscription implements Named { name: String plan: String }\ntype Mutation implements Named { name: String }\ntype Cat implements Named { name: String }\n" +
+		"union U = Subscription | Cat | Mutation | Query\n"
+	const sel = "{ __typename ... on Named { name } ... on Subscription { plan } ... on Query { q: name } ... on Mutation { m: name } ... on Cat { c: name } }"
+	query := "{ named " + sel + " us " + sel + " me " + sel + " u " + sel + " }"
+	perms := [][]int{}
+	var rec func(cur []int, used int)
+	rec = func(cur []int, used int) {
+		if len(cur) == 4 {
+			perms = append(perms, append([]int{}, cur...))
+			return
+		}
+		for i := 0; i < 4; i++ {
+			if used&(1<<i) == 0 {
+				rec(append(cur, i), used|1<<i)
+			}
+		}
+	}
+	rec(nil, 0)
+	for bi, binding := range []string{"registered", "go-directive"} {
+		for pi2, perm := range perms {
+			if !c.OwnsIdx(1<<45 + int64(bi*100+pi2)) {
+				continue
+			}
+			c.Eval()
+			c.R.Distinct++
+			c.Nontrivial()
+			q := &C08GQuery{Name: "root"}
+			objs := []interface{}{q, &C08GSubscription{"sub", "monthly"}, &C08GMutation{"mut"}, &C08GCat{"cat"}}
+			wants := []map[string]interface{}{
+				{"__typename": "Query", "name": "root", "q": "root"},
+				{"__typename": "Subscription", "name": "sub", "plan": "monthly"},
+				{"__typename": "Mutation", "name": "mut", "m": "mut"},
+				{"__typename": "Cat", "name": "cat", "c": "cat"},
+			}
+			var wl []interface{}
+			for _, i := range perm {
+				q.Named = append(q.Named, objs[i])
+				q.Us = append(q.Us, objs[i])
+				wl = append(wl, wants[i])
+			}
+			q.Me, q.U = objs[perm[0]], objs[perm[1]]
+			want := map[string]interface{}{"named": wl, "us": wl, "me": wants[perm[0]], "u": wants[perm[1]]}
+			text := sdl
+			if binding == "go-directive" {
+				text = strings.Replace(text, "type Subscription implements Named {", "type Subscription implements Named @go(type: \"C08GSubscription\") {", 1)
+				text = strings.Replace(text, "type Mutation implements Named {", "type Mutation implements Named @go(type: \"C08GMutation\") {", 1)
+				text = strings.Replace(text, "type Cat implements Named {", "type Cat implements Named @go(type: \"C08GCat\") {", 1)
+				text = strings.Replace(text, "type Query implements Named {", "type Query implements Named @go(type: \"C08GQuery\") {", 1)
+			}
+			root := ggql.NewRoot(&c08GRoot{Query: q})
+			if err := root.ParseString(text); err != nil {
+				panic(core.EngineError{Msg: "C08 part G schema refused: " + err.Error()})
+			}
+			var res map[string]interface{}
+			var regErr error
+			pi := core.Safe(func() {
+				if binding == "registered" {
+					for _, rt := range []struct {
+						v interface{}
+						n string
+					}{{&C08GQuery{}, "Query"}, {&C08GSubscription{}, "Subscription"}, {&C08GMutation{}, "Mutation"}, {&C08GCat{}, "Cat"}} {
+						if regErr == nil {
+							regErr = root.RegisterType(rt.v, rt.n)
+						}
+					}
+				}
+				res = root.ResolveString(query, "", nil)
+			})
+			detail := map[string]interface{}{"sdl": text, "binding": binding, "order": perm, "query": query, "response": res, "want_data": want}
+			attrs := map[string]string{"part": "objects-named-like-roots", "binding": binding}
+			switch {
+			case pi != nil:
+				detail["panic"] = pi.Value
+				c.Violation("panic", map[string]string{"site": pi.Site, "class": pi.Class, "part": "objects-named-like-roots"}, detail)
+			case regErr != nil:
+				panic(core.EngineError{Msg: "C08 part G registration refused: " + regErr.Error()})
+			default:
+				if dd := world.Diff(world.Canon(want), world.Canon(res["data"]), ""); dd != "" || res["errors"] != nil {
+					detail["diff"] = dd
+					c.Outcome("part-G-diff")
+					c.Violation("data-diff", attrs, detail)
+				} else {
+					c.Outcome("part-G-agree")
 				}
 			}
 		}
